@@ -181,7 +181,7 @@ const (
 	verifC25Q          = 10 * time.Millisecond // retry back-off; every harness step is a multiple
 	verifC25BatchDelay = 2 * verifC25Q
 	verifC25HWMEvery   = 4 * verifC25Q
-	verifC25Skew       = time.Millisecond // leader changes happen off the 10 ms grid (see becomeLeader)
+	verifC25Skew       = time.Millisecond // leader changes happen off the 10 ms grid (see setLeader)
 )
 
 // the indexes of the log entries that change rows (a consecutive pair and a gap)
@@ -382,9 +382,14 @@ func (w *verifC25World) announced(v uint64) {
 	}
 }
 
+// tick lets d (a multiple of 10 ms) pass. Batch and retry timers expire on the 10 ms grid, the HWM
+// ticker of a tenure 1 ms after it (see setLeader): the two instants of every 10 ms are visited one
+// after the other, so that the symbolic clock fires timers in the order of the native one.
 func (w *verifC25World) tick(d time.Duration) {
 	for ; d > 0; d -= verifC25Q {
-		verifAdvanceClock(int64(verifC25Q))
+		verifAdvanceClock(int64(verifC25Skew))
+		w.settle()
+		verifAdvanceClock(int64(verifC25Q - verifC25Skew))
 		w.settle()
 	}
 }
@@ -675,6 +680,12 @@ func VerifC25bOutage() {
 	verifC25HistoryFrom(1+verifChoice("batchSz", 2), steps, true,
 		[]int{vC25Feed, vC25TickBatch, vC25Outage, vC25Feed, vC25TickBatch, vC25TickHWM},
 		[]int{vC25Restart, vC25Leader, vC25Outage, vC25Feed, vC25TickHWM, vC25Snapshot})
+}
+
+// VerifC25bSchedules (thorough tier): short histories with EVERY order in which the goroutines
+// woken by a stimulus can run (the other entries let them run in one fixed order).
+func VerifC25bSchedules() {
+	verifC25History(1, 3, true, []int{vC25Feed, vC25FeedMore, vC25FailNext, vC25Leader})
 }
 
 // VerifC25bTwin: same world; the final assertion contradicts the property and must fail.
